@@ -460,6 +460,7 @@ static void loop_end(int rc) {
     lr.poll_failure = R->k.poll_failure_injected;
     R->k.poll_failure_injected = false;
     if (W->loop_start_pending_eval) quiescent_hook();   // loop ended without ever polling: the start pass still happened
+    else if (!lr.poll_failure && R->k.batches.size() > W->batches_at_last_quiescent) quiescent_hook();   // the pass after the last batch (e.g. the one whose handler quit the loop) is due as well
     W->ctx_looping = false;
     sim::tr("loop_end", rc);
     orc_c19_loop_edge(false);
